@@ -9,7 +9,7 @@ WT=/tmp/sv_wt
 OUT=/tmp/seeded_verify; mkdir -p $OUT
 R=$OUT/$NAME.result; : > $R
 if [ ! -d $WT ]; then git -C /repo worktree add --detach $WT HEAD -q || exit 2; fi
-git -C $WT checkout -q --detach "$(git -C /repo rev-parse HEAD)" ; git -C $WT checkout -q -- . ; git -C $WT clean -fdq -e _b
+git -C $WT checkout -q --detach "$(git -C /repo rev-parse HEAD)" ; git -C $WT reset -q --hard; git -C $WT clean -fdq -e _b
 if ! git -C $WT apply --check "$SRC/patch.diff" 2>>$R; then
   if ! git -C $WT apply --3way "$SRC/patch.diff" 2>>$R; then echo "APPLY: FAILED" >> $R; exit 1; fi
 else git -C $WT apply "$SRC/patch.diff"; fi
@@ -25,6 +25,6 @@ if nice -n 10 cmake --build $WT/_b -j12 > $OUT/$NAME.build.log 2>&1; then echo "
 nice -n 10 ctest --test-dir $WT/_b -j12 --timeout 900 > $OUT/$NAME.ctest.log 2>&1
 grep -E "tests passed|tests failed" $OUT/$NAME.ctest.log >> $R
 grep -E "^\s+[0-9]+ - .*\((Failed|Timeout)" $OUT/$NAME.ctest.log | head -5 >> $R
-git -C $WT checkout -q -- . 
+git -C $WT reset -q --hard
 rc=$(demo_build_run); echo "DEMO-WITHOUT-PATCH: exit=$rc (expected 0)" >> $R
 cat $R
